@@ -1,5 +1,7 @@
 import ZV.Model.C25
 import ZV.Proofs.C25
+import ZV.Proofs.C25Read
+import ZV.Generated.C25
 /-!
   C25 — TLS application data arrives intact or not at all: theorems about the model `ZV.Model.C25`
   of tls/conn.go (extractPadding, halfConn.encrypt/decrypt, maxPayloadSizeForWrite, writeRecordLocked,
@@ -631,6 +633,355 @@ theorem read_le_2_14 {σ} (c : Conn σ) (raw : Bytes) (input : Bytes) (c' : Conn
         | (cases input <;> simp_all))
     | (cases input <;> simp_all)
 
+/-! ### transport segmentation (readFromUntil / atLeastReader), for ALL segmentations -/
+
+/-- **no byte lost, duplicated or reordered by readFromUntil**, whatever chunks the transport's `Read`
+    returns (any sizes, empty reads included): it either returns with at least `n` bytes buffered and
+    `rawInput ++ (transport still to come)` unchanged, or it has moved the whole transport into
+    `rawInput` and reports io.ErrUnexpectedEOF — exactly when fewer than `n` bytes exist in total. -/
+theorem transport_no_loss (raw : Bytes) (n : Nat) (chunks : List Bytes) :
+    (∃ raw' cs', readFromUntil raw n chunks = (raw', cs', none) ∧
+        raw' ++ cs'.flatten = raw ++ chunks.flatten ∧ n ≤ raw'.length) ∨
+    (readFromUntil raw n chunks = (raw ++ chunks.flatten, [], some .unexpectedEOF) ∧
+        (raw ++ chunks.flatten).length < n) :=
+  readFromUntil_cases raw n chunks
+
+/-- **record framing is a function of the byte stream alone**: the record `fetch` cuts off (or the
+    error it reports) is the one `fetchS` computes from `rawInput ++ transport` without any transport. -/
+theorem fetch_chunking_independent {σ} (c : Conn σ) (raw : Bytes) (chunks : List Bytes) :
+    absF (fetch c raw chunks) = fetchS c (raw ++ chunks.flatten) :=
+  fetch_eq_fetchS c raw chunks
+
+/-- **one readRecordOrCCS call, any two segmentations of the same bytes** (same connection state, same
+    `rawInput ++ transport`): same result — delivered data / handshake / cipher change / error class —
+    and again the same connection state and the same bytes to come. -/
+theorem readRecordOrCCS_chunking_independent {σ} (a b : RState σ) (e : Bool) (hc : a.core = b.core)
+    (ht : a.raw ++ a.chunks.flatten = b.raw ++ b.chunks.flatten) :
+    (readRecordOrCCS a e = none ∧ readRecordOrCCS b e = none) ∨
+    (∃ a' b' o, readRecordOrCCS a e = some (a', o) ∧ readRecordOrCCS b e = some (b', o) ∧ a'.core = b'.core ∧
+      (a'.core.inErr = none → a'.raw ++ a'.chunks.flatten = b'.raw ++ b'.chunks.flatten)) := by
+  rcases readLoop_sim e (maxUselessRecords + 1) a b ⟨hc, fun _ => ht⟩ with h | ⟨a', b', o, h1, h2, h3⟩
+  · left; exact h
+  · right; exact ⟨a', b', o, h1, h2, h3.1, h3.2⟩
+
+/-- **the central statement, read side: for ANY split of the byte stream into transport reads** the
+    application data delivered by any number `n` of `readRecord` calls (the loop of `Conn.Read`) and the
+    error that ends it are those obtained with all bytes in memory. -/
+theorem read_chunking_independent {σ} (n : Nat) (k : RCore σ) (raw : Bytes) (chunks : List Bytes) :
+    readAll n ⟨k, raw, chunks⟩ = readAll n ⟨k, raw ++ chunks.flatten, []⟩ :=
+  readAll_sim n _ _ ⟨rfl, fun _ => by simp⟩
+
+/-- … in particular any two segmentations of the same stream deliver the same. -/
+theorem read_any_two_chunkings {σ} (n : Nat) (k : RCore σ) (cs cs' : List Bytes) (h : cs.flatten = cs'.flatten) :
+    readAll n ⟨k, [], cs⟩ = readAll n ⟨k, [], cs'⟩ := by
+  rw [read_chunking_independent, read_chunking_independent n k [] cs', h]
+
+/-! ### what is delivered, and what an authentication failure does -/
+
+/-- **nothing is delivered from a record that fails authentication**: if `decrypt` rejects the record
+    (MAC, padding, AEAD tag, length, TLS 1.3 inner plaintext), readRecordOrCCS delivers nothing, sends the
+    alert `decryptAlert` names and stores the error. -/
+theorem reject_delivers_nothing {σ} (k : RCore σ) (e : Bool) (r : Bytes) (h : decrypt k.c.hc r = .err) :
+    process k e r = .done { k with inErr := some (.localAlert (decryptAlert k.c.hc r)) }
+      (.err (.localAlert (decryptAlert k.c.hc r))) :=
+  process_decrypt_err k e r h
+
+/-- **delivered data is exactly the plaintext of a record `decrypt` accepted** at the current read
+    state, of inner type application_data, after the handshake, 1 to 2^14 bytes long — so by the
+    `tamper_needs_forgery_*` theorems it is the data of the honest record at this sequence number, or a
+    MAC/AEAD forgery. -/
+theorem delivered_is_authenticated {σ} (k k' : RCore σ) (e : Bool) (r d : Bytes)
+    (h : process k e r = .done k' (.data d)) :
+    e = false ∧ k.c.handshakeComplete = true ∧
+    (∃ hc', decrypt k.c.hc r = .ok (d, recordTypeApplicationData, hc') ∧ k'.c.hc = hc') ∧
+    1 ≤ d.length ∧ d.length ≤ 2 ^ 14 ∧ k'.input = d := by
+  obtain ⟨h1, h2, h3, h4, h5, h6, _⟩ := process_data k k' e r d h
+  exact ⟨h1, h2, h3, h4, by simpa [maxPlaintext] using h5, h6⟩
+
+/-- **errors are sticky**: every error readRecordOrCCS reports is stored in `c.in.err` … -/
+theorem error_is_stored {σ} (k k' : RCore σ) (e : Bool) (r : Bytes) (er : ErrK)
+    (h : process k e r = .done k' (.err er)) : k'.inErr = some er :=
+  process_err k k' e r er h
+
+/-- … and with a stored error every later call returns it without touching the transport or the state. -/
+theorem stored_error_returned {σ} (s : RState σ) (e : Bool) (er : ErrK) (h : s.core.inErr = some er) :
+    readRecordOrCCS s e = some (s, .err er) := by
+  simp [readRecordOrCCS, readLoop, readStep, h]
+
+/-- a call with undelivered application data is refused -/
+theorem pending_input_refused {σ} (s : RState σ) (e : Bool) (h : s.core.inErr = none) (hi : s.core.input ≠ []) :
+    ∃ s', readRecordOrCCS s e = some (s', .err .pendingInput) := by
+  have : (s.core.input.length != 0) = true := by
+    cases hl : s.core.input with
+    | nil => exact absurd hl hi
+    | cons _ _ => simp
+  simp [readRecordOrCCS, readLoop, readStep, h, this]
+
+/-! ### which alert for which failure -/
+
+/-- below TLS 1.3 every failure of `decrypt` is reported as bad_record_mac: a short record, bad CBC
+    padding and a bad MAC are indistinguishable by the alert. -/
+theorem decryptAlert_le12 {σ} (hc : HalfConn σ) (r : Bytes) (hv : hc.version ≠ VersionTLS13) :
+    decryptAlert hc r = alertBadRecordMAC := by
+  unfold decryptAlert
+  split
+  · split
+    · rfl
+    · rw [decrypt13_other _ hv]
+    · simp only []
+      split
+      · rfl
+      · split
+        · rfl
+        · rw [decrypt13_other _ hv]
+    · simp only []
+      split
+      · rfl
+      · rw [decrypt13_other _ hv]
+  · rfl
+
+/-- in every version the alert of a failing decrypt is one of bad_record_mac, unexpected_message,
+    record_overflow -/
+theorem decryptAlert_mem {σ} (hc : HalfConn σ) (r : Bytes) :
+    decryptAlert hc r = alertBadRecordMAC ∨ decryptAlert hc r = alertUnexpectedMessage ∨
+      decryptAlert hc r = alertRecordOverflow := by
+  have h13 : ∀ t p, decrypt13Alert t p = alertUnexpectedMessage ∨ decrypt13Alert t p = alertRecordOverflow := by
+    intro t p; unfold decrypt13Alert; split
+    · left; rfl
+    · split
+      · right; rfl
+      · left; rfl
+  unfold decryptAlert
+  split
+  · split
+    · left; rfl
+    · split
+      · left; rfl
+      · right; exact h13 _ _
+    · simp only []
+      split
+      · left; rfl
+      · split
+        · left; rfl
+        · split
+          · left; rfl
+          · right; exact h13 _ _
+    · simp only []
+      split
+      · left; rfl
+      · split
+        · left; rfl
+        · right; exact h13 _ _
+  · left; rfl
+
+/-- T1: the model's constants are the ones in the tree (tls/common.go, tls/conn.go, tls/alert.go),
+    re-extracted on every run -/
+theorem constants_match_tree :
+    maxPlaintext = Gen.maxPlaintext ∧ maxCiphertext = Gen.maxCiphertext ∧
+    maxCiphertextTLS13 = Gen.maxCiphertextTLS13 ∧ recordHeaderLen = Gen.recordHeaderLen ∧
+    maxUselessRecords = Gen.maxUselessRecords ∧ tcpMSSEstimate = Gen.tcpMSSEstimate ∧
+    recordSizeBoostThreshold = Gen.recordSizeBoostThreshold ∧
+    recordTypeChangeCipherSpec.toNat = Gen.recordTypeChangeCipherSpec ∧ recordTypeAlert.toNat = Gen.recordTypeAlert ∧
+    recordTypeHandshake.toNat = Gen.recordTypeHandshake ∧ recordTypeApplicationData.toNat = Gen.recordTypeApplicationData ∧
+    VersionTLS10 = Gen.versionTLS10 ∧ VersionTLS11 = Gen.versionTLS11 ∧ VersionTLS12 = Gen.versionTLS12 ∧
+    VersionTLS13 = Gen.versionTLS13 := by decide
+
+/-- T1: the alert numbers the model uses are the values of the named constants of tls/alert.go -/
+theorem alerts_match_tree :
+    Gen.alertValue "AlertCloseNotify" = some alertCloseNotify ∧
+    Gen.alertValue "AlertUnexpectedMessage" = some alertUnexpectedMessage ∧
+    Gen.alertValue "AlertBadRecordMAC" = some alertBadRecordMAC ∧
+    Gen.alertValue "AlertRecordOverflow" = some alertRecordOverflow ∧
+    Gen.alertValue "AlertDecodeError" = some alertDecodeError ∧
+    Gen.alertValue "AlertProtocolVersion" = some alertProtocolVersion ∧
+    Gen.alertValue "AlertInternalError" = some alertInternalError ∧
+    Gen.alertLevelWarning = alertLevelWarning.toNat ∧ Gen.alertLevelError = alertLevelError.toNat := by decide
+
+/-- T1 (go/ast): the alerts named at the `sendAlert` / `return …, Alert…` sites of readRecordOrCCS,
+    retryReadRecord, decrypt and changeCipherSpec in the tree are, site by site in source order, the ones
+    the model sends there. -/
+theorem alert_sites_match_tree :
+    Gen.alertSites "readRecordOrCCS" =
+      ["AlertProtocolVersion", "AlertProtocolVersion", "AlertRecordOverflow", "err", "AlertRecordOverflow",
+       "AlertUnexpectedMessage", "AlertUnexpectedMessage", "AlertUnexpectedMessage", "AlertUnexpectedMessage",
+       "AlertUnexpectedMessage", "AlertDecodeError", "AlertUnexpectedMessage", "AlertUnexpectedMessage", "err",
+       "AlertUnexpectedMessage", "AlertUnexpectedMessage"] ∧
+    Gen.alertSites "retryReadRecord" = ["AlertUnexpectedMessage"] ∧
+    Gen.alertSites "decrypt" =
+      ["AlertBadRecordMAC", "AlertBadRecordMAC", "AlertBadRecordMAC", "AlertUnexpectedMessage", "AlertRecordOverflow",
+       "AlertUnexpectedMessage", "AlertBadRecordMAC", "AlertBadRecordMAC"] ∧
+    Gen.alertSites "changeCipherSpec" = ["AlertInternalError"] := by decide
+
+/-! ### the cipher change (read side and write side) and the retry bound -/
+
+/-- `halfConn.changeCipherSpec`: only below TLS 1.3 and with a pending cipher; the sequence number
+    restarts at zero (same length), the pending cipher and its state are installed. -/
+theorem changeCipherSpec_resets_seq {σ} (hc hc2 : HalfConn σ) (next : Option (Cipher σ × σ))
+    (h : changeCipherSpec hc next = some hc2) :
+    (∀ b ∈ hc2.seq, b = 0) ∧ hc2.seq.length = hc.seq.length ∧ hc.version ≠ VersionTLS13 ∧
+    hc2.version = hc.version ∧ ∃ st, next = some (hc2.cipher, st) ∧ hc2.st = st :=
+  changeCipherSpec_spec hc hc2 next h
+
+/-- **read side**: a cipher change happens only when it is expected, below TLS 1.3, on an accepted
+    record of type change_cipher_spec with body `[1]`; afterwards the pending cipher is consumed and the
+    read sequence number is zero. -/
+theorem read_cipher_change {σ} (k k' : RCore σ) (e : Bool) (r : Bytes) (h : process k e r = .done k' .ccs) :
+    e = true ∧ k.c.vers ≠ VersionTLS13 ∧ k'.next = none ∧ (∀ b ∈ k'.c.hc.seq, b = 0) ∧
+    ∃ d hc', decrypt k.c.hc r = .ok (d, recordTypeChangeCipherSpec, hc') ∧ d = [1] ∧
+      changeCipherSpec hc' k.next = some k'.c.hc :=
+  process_ccs k k' e r h
+
+/-- **limit on consecutive non-advancing records**: every dropped record (warning alert, empty
+    application data, TLS 1.3 change_cipher_spec) increments `retryCount`, and the count never exceeds
+    `maxUselessRecords` = 16 … -/
+theorem ignored_record_counts {σ} (k k' : RCore σ) (e : Bool) (r : Bytes) (h : process k e r = .retry k') :
+    k'.c.retryCount = k.c.retryCount + 1 ∧ k'.c.retryCount ≤ 16 :=
+  process_retry k k' e r h
+
+theorem readStep_retry_counts {σ} (s s' : RState σ) (e : Bool) (h : readStep s e = .retry s') :
+    s'.core.c.retryCount = s.core.c.retryCount + 1 ∧ s'.core.c.retryCount ≤ 16 := by
+  unfold readStep at h
+  split at h
+  · cases h
+  · split at h
+    · cases h
+    · split at h
+      · cases h
+      · rename_i rec rest cs hf
+        cases hp : process s.core e rec with
+        | done k o => rw [hp] at h; cases h
+        | retry k => rw [hp] at h; cases h; exact process_retry _ _ _ _ hp
+        | panic => rw [hp] at h; cases h
+
+/-- … hence the fuel of `readLoop` is never the reason for its result: any two amounts of fuel that
+    cover the remaining `maxUselessRecords + 1 - retryCount` passes give the same result
+    (`readRecordOrCCS` uses `maxUselessRecords + 1`). -/
+theorem readLoop_fuel {σ} (e : Bool) (f1 : Nat) : ∀ (f2 : Nat) (s : RState σ), 1 ≤ f1 → 1 ≤ f2 →
+    17 ≤ f1 + s.core.c.retryCount → 17 ≤ f2 + s.core.c.retryCount → readLoop e f1 s = readLoop e f2 s := by
+  induction f1 with
+  | zero => intro f2 s h; omega
+  | succ n ih =>
+    intro f2 s _ h2 h3 h4
+    cases f2 with
+    | zero => omega
+    | succ m =>
+      unfold readLoop
+      cases hs : readStep s e with
+      | done s' o => rfl
+      | panic => rfl
+      | retry s' =>
+        simp only []
+        obtain ⟨r1, r2⟩ := readStep_retry_counts s s' e hs
+        exact ih m s' (by omega) (by omega) (by omega) (by omega)
+
+/-- **write side** (`writeRecordLocked` with a pending cipher): the fragments still concatenate to the
+    input; after a ChangeCipherSpec record below TLS 1.3 the pending cipher is installed with sequence
+    number zero, and if none is pending an internal_error alert `[2, 80]` is what goes out. -/
+theorem write_cipher_change {σ} (c : Conn σ) (next : Option (Cipher σ × σ)) (typ : UInt8) (data rand : Bytes)
+    (we : WriteEnd σ) (h : writeRecordLockedN c next typ data rand = .ok we) :
+    match we with
+    | .plain w => writeLoop c typ data rand 0 [] [] = .ok w ∧
+        ¬ (typ = recordTypeChangeCipherSpec ∧ c.vers ≠ VersionTLS13)
+    | .switched w => typ = recordTypeChangeCipherSpec ∧ c.vers ≠ VersionTLS13 ∧ w.frags.flatten = data ∧
+        (∀ b ∈ w.conn.hc.seq, b = 0) ∧ ∃ st, next = some (w.conn.hc.cipher, st) ∧ w.conn.hc.st = st
+    | .ccsFailed w al => typ = recordTypeChangeCipherSpec ∧ c.vers ≠ VersionTLS13 ∧ w.frags.flatten = data ∧
+        changeCipherSpec w.conn.hc next = none ∧
+        al = writeLoop w.conn recordTypeAlert [2, 80] w.rand 0 [] [] := by
+  unfold writeRecordLockedN at h
+  cases hw : writeLoop c typ data rand 0 [] [] with
+  | ok w =>
+    rw [hw] at h
+    simp only at h
+    obtain ⟨fs, h1, h2, -⟩ := writeLoop_spec c typ data rand 0 [] [] w hw
+    simp only [List.reverse_nil, List.nil_append] at h1
+    split at h
+    · rename_i hcond
+      have hcond' : typ = recordTypeChangeCipherSpec ∧ c.vers ≠ VersionTLS13 := by simpa using hcond
+      cases hcs : changeCipherSpec w.conn.hc next with
+      | some hc2 =>
+        rw [hcs] at h
+        cases h
+        obtain ⟨a1, _, _, _, st, a5, a6⟩ := changeCipherSpec_spec _ _ _ hcs
+        exact ⟨hcond'.1, hcond'.2, by rw [h1]; exact h2, a1, st, a5, a6⟩
+      | none =>
+        rw [hcs] at h
+        cases h
+        exact ⟨hcond'.1, hcond'.2, by rw [h1]; exact h2, hcs, rfl⟩
+    · rename_i hcond
+      cases h
+      exact ⟨rfl, by simpa using hcond⟩
+  | err => rw [hw] at h; cases h
+  | panic => rw [hw] at h; cases h
+
+/-- **Conn.Write, including the TLS 1.0 1/n-1 split**: however `Write` cuts its argument into
+    `writeRecordLocked` calls, the plaintext fragments concatenate to exactly the argument, each is 1 to
+    2^14 bytes, the returned count is the argument's length; and when the split applies (TLS 1.0, block
+    cipher, more than one byte, mitigation not disabled) the first record carries exactly one byte. -/
+theorem connWrite_spec {σ} (c : Conn σ) (dis : Bool) (b rand : Bytes) (n : Nat) (w1 : Option (WriteOut σ))
+    (w2 : WriteOut σ) (h : connWrite c dis b rand = .ok (n, w1, w2)) :
+    n = b.length ∧
+    ((match w1 with | some w => w.frags | none => []) ++ w2.frags).flatten = b ∧
+    (∀ f ∈ (match w1 with | some w => w.frags | none => []) ++ w2.frags, 1 ≤ f.length ∧ f.length ≤ 2 ^ 14) ∧
+    ((b.length > 1 ∧ c.vers = VersionTLS10 ∧ dis = false ∧ isCbc c.hc.cipher = true) →
+      ∃ w, w1 = some w ∧ w.frags = [b.take 1]) := by
+  unfold connWrite at h
+  split at h
+  · rename_i hcond
+    cases h1 : writeRecordLocked c recordTypeApplicationData (b.take 1) rand with
+    | ok x1 =>
+      rw [h1] at h
+      simp only at h
+      cases h2 : writeRecordLocked x1.conn recordTypeApplicationData (b.drop 1) x1.rand with
+      | ok x2 =>
+        rw [h2] at h
+        simp only [Res.ok.injEq, Prod.mk.injEq] at h
+        obtain ⟨hn, hw1, hw2⟩ := h
+        subst hn; subst hw1; subst hw2
+        obtain ⟨a1, a2, a3, a4⟩ := fragment_concat_le _ _ _ _ _ h1
+        obtain ⟨b1, b2, b3, b4⟩ := fragment_concat_le _ _ _ _ _ h2
+        have hb : 1 < b.length := by simp at hcond; exact hcond.1.1.1
+        refine ⟨by rw [b3]; simp; omega, ?_, ?_, ?_⟩
+        · show (x1.frags ++ x2.frags).flatten = b
+          rw [List.flatten_append, a1, b1, List.take_append_drop]
+        · intro f hf
+          simp only [List.mem_append] at hf
+          rcases hf with hf | hf
+          · exact a2 f hf
+          · exact b2 f hf
+        · intro _
+          refine ⟨x1, rfl, ?_⟩
+          -- one fragment: flatten = take 1 (length 1), every fragment non-empty
+          have hl : (b.take 1).length = 1 := by simp; omega
+          have hlen := congrArg List.length a1
+          cases hfr : x1.frags with
+          | nil => rw [hfr] at hlen; simp only [List.flatten_nil, List.length_nil] at hlen; omega
+          | cons f tl =>
+            cases tl with
+            | nil => rw [hfr] at a1; simp only [List.flatten_cons, List.flatten_nil, List.append_nil] at a1; rw [a1]
+            | cons g tl2 =>
+              rw [hfr] at hlen a2
+              simp only [List.flatten_cons, List.length_append] at hlen
+              have hf := (a2 f (by simp)).1
+              have hg := (a2 g (by simp)).1
+              omega
+      | err => rw [h2] at h; cases h
+      | panic => rw [h2] at h; cases h
+    | err => rw [h1] at h; cases h
+    | panic => rw [h1] at h; cases h
+  · rename_i hcond
+    cases h1 : writeRecordLocked c recordTypeApplicationData b rand with
+    | ok x =>
+      rw [h1] at h
+      simp only [Res.ok.injEq, Prod.mk.injEq] at h
+      obtain ⟨hn, hw1, hw2⟩ := h
+      subst hn; subst hw1; subst hw2
+      obtain ⟨a1, a2, a3, a4⟩ := fragment_concat_le _ _ _ _ _ h1
+      refine ⟨a3, by simpa using a1, by simpa using a2, ?_⟩
+      intro ⟨c1, c2, c3, c4⟩
+      exfalso; apply hcond
+      simp [c1, c2, c3, c4]
+    | err => rw [h1] at h; cases h
+    | panic => rw [h1] at h; cases h
 
 
 section examples
@@ -675,6 +1026,32 @@ example : decrypt (σ := Unit) ⟨0x0303, .stream (fun s b => (b, s)) ⟨0, fun 
     = .ok ([42], 23, ⟨0x0303, .stream (fun s b => (b, s)) ⟨0, fun _ => []⟩, (), seq1⟩) := by
   simp [decrypt, decrypt13, decryptMac, tls10MAC, incSeq, incSeqRev, seq0, seq1, VersionTLS13,
     recordTypeChangeCipherSpec]
+
+/-- transport theorems instantiated: a 9-byte stream in three chunks (one empty), header then body -/
+example : readFromUntil [] 5 [[23, 3], [], [3, 0, 1, 42], [9]] = ([23, 3, 3, 0, 1, 42], [[9]], none) := by decide
+example : readFromUntil [23] 5 [[3, 3]] = ([23, 3, 3], [], some .unexpectedEOF) := by decide
+def plainConn : Conn Unit :=
+  { vers := 0x0303, haveVers := true, handshakeComplete := true, dynamicRecordSizingDisabled := false,
+    buffering := false, bytesSent := 0, packetsSent := 0, retryCount := 0,
+    hc := ⟨0x0303, .stream (fun s b => (b, s)) ⟨0, fun _ => []⟩, (), seq0⟩, hand := [] }
+example : absF (fetch plainConn [] [[23, 3], [], [3, 0, 1, 42], [9]]) = .record [23, 3, 3, 0, 1, 42] [9] := by
+  rw [fetch_chunking_independent]; decide
+/-- `delivered_is_authenticated` / `read_cipher_change` / `ignored_record_counts`: hypotheses satisfiable -/
+example : (match process ⟨plainConn, none, none, []⟩ false [23, 3, 3, 0, 1, 42] with
+    | .done _ (.data d) => d == [42] | _ => false) = true := by decide
+example : (match process ⟨plainConn, some (.stream (fun s b => (b, s)) ⟨0, fun _ => []⟩, ()), none, []⟩ true
+    [20, 3, 3, 0, 1, 1] with | .done k .ccs => k.c.hc.seq == [0, 0, 0, 0, 0, 0, 0, 0] | _ => false) = true := by decide
+example : (match process ⟨plainConn, none, none, []⟩ false [23, 3, 3, 0, 0] with
+    | .retry k => k.c.retryCount == 1 | _ => false) = true := by decide
+example : decrypt plainConn.hc [23, 3, 3, 0, 0] ≠ .err := by
+  simp [plainConn, decrypt, decrypt13, decryptMac, tls10MAC, incSeq, incSeqRev, seq0, VersionTLS13,
+    recordTypeChangeCipherSpec]
+/-- `reject_delivers_nothing`: a rejected record exists (MAC of one byte that does not match) -/
+example : decrypt (σ := Unit) ⟨0x0303, .stream (fun s b => (b, s)) ⟨1, fun _ => [7]⟩, (), seq0⟩ [23, 3, 3, 0, 2, 42, 8]
+    = .err := by
+  simp [decrypt, decrypt13, decryptMac, tls10MAC, VersionTLS13, recordTypeChangeCipherSpec]
+example : changeCipherSpec (σ := Unit) ⟨0x0303, .null, (), seq0⟩ (some (.stream (fun s b => (b, s)) ⟨0, fun _ => []⟩, ()))
+    ≠ none := by simp [changeCipherSpec, VersionTLS13]
 
 end examples
 
